@@ -1,9 +1,12 @@
 import PlushModel
+import PlushProofs.Lib.EvalPaths
 /-!
   C11 — path access returns exactly what Go navigation would, or fails; never another element.
-  PARTIAL: struct fields and methods are reflected Go values outside the model's value universe, so the
-  navigation itself is decided by the C11 oracle (self-describing data) on the implementation. What is
-  proved here is the part of the mechanism that is logic: how a dotted path is split and re-joined, how
+  Struct values and pointers ARE in the model's value universe (`Val.struct`, `Val.ptr`; build session 3): field
+  selection along a dotted path is proved to be exactly navigation (`C11_path_is_navigation` below) and tied to
+  /repo by struct-shaped data in the `render-gen` stream. Still PARTIAL: methods, embedded structs and the
+  index-then-member rebinding are reflected Go behaviour outside the model; for them the navigation is decided by
+  the C11 oracle (self-describing data) on the implementation. Also proved here, the part of the mechanism that is logic: how a dotted path is split and re-joined, how
   `assignCallee` wires `a[i].b` / `a[i].b.f()` (the root of the member chain is the indexed element — the
   `fix:` for the wrong-element defect), that an index is bounds-checked on both sides, and that a failed
   navigation step is an error or nil — never a default element.
@@ -94,6 +97,57 @@ theorem C11_member_of_nil (fuel : Nat) (i : Ident) (root leaf : Bytes) (s s1 : E
   have : i = { i with base := none, segs := [root, leaf] } := by cases i; simp_all
   rw [this]
   simp only [hb] at h
-  simp [evalIdent, bind, List.dropLast, h, pure]
+  simp [evalIdent, bind, List.dropLast, h, memberOf, memberStep]
+
+/-! ### Dotted paths over struct / pointer data (proofs in `PlushProofs/Lib/EvalPaths.lean`) -/
+
+/-- EVALUATING A DOTTED PATH IS NAVIGATION, for every path length, every data graph, every state and any
+    sufficient fuel: the value of `root.f1.f2.….fn` is the left-to-right fold of the one-step member function
+    (`memberStep`: nil has nil members; one pointer dereference in front; struct field lookup by name; a nil
+    pointer field is nil, a non-nil pointer field is dereferenced; unexported is an error; anything else has no
+    members) over `f1 … fn`, starting from what `root` is bound to — and the evaluator state is untouched. So a
+    path yields exactly what that navigation yields, or the first failure on the way. -/
+theorem C11_path_is_navigation (t : Token) (root : Bytes) (s : ES) (path : List Bytes) (fuel : Nat) (hf : path.length < fuel) :
+    evalIdent fuel { tok := t, segs := root :: path, base := none } s = (navigate (rootValue root s) path, s) :=
+  evalIdent_path t root s path fuel hf
+
+/-- the right field: a field that is there, exported and not a pointer is returned as it is … -/
+theorem C11_field_exact (ty : String) (fields : List (Bytes × Val)) (name : Bytes) (v : Val)
+    (h : lookupKey name fields = some v) (hx : isExportedName name = true) (hp : ∀ t p, v ≠ .ptr t p) :
+    memberStep (.struct ty fields) name = .ok v := memberStep_field ty fields name v h hx hp
+
+/-- … and what is found under a name IS an entry of that name: never the value of a different element -/
+theorem C11_found_value_has_that_name (k : Bytes) (l : List (Bytes × Val)) (v : Val) (h : lookupKey k l = some v) :
+    (k, v) ∈ l := lookupKey_mem k l v h
+
+/-- pointers are dereferenced transparently -/
+theorem C11_through_pointer (pty : String) (c : Val) (name : Bytes) (hc : ∀ a r, c ≠ .opaque a r) (hn : c ≠ .nil)
+    (hpp : ∀ t p, c ≠ .ptr t p) : memberStep (.ptr pty (some c)) name = memberStep c name :=
+  memberStep_ptr pty c name hc hn hpp
+
+/-- navigation that cannot be completed is an error or nil — a missing field, a typed nil pointer, a scalar,
+    a slice, a map have no members; members of nil are nil -/
+theorem C11_incomplete_navigation (ty : String) (fields : List (Bytes × Val)) (name : Bytes) (t : String) (i : Int) (sv : Bytes)
+    (e : Ty) (a : Nat) (h : lookupKey name fields = none) :
+    memberStep (.struct ty fields) name = .err { kind := "no-field-or-method" } ∧
+    memberStep (.ptr t none) name = .err { kind := "no-field-or-method" } ∧
+    memberStep .nil name = .ok .nil ∧
+    memberStep (.int i) name = .err { kind := "no-field-or-method" } ∧
+    memberStep (.str sv) name = .err { kind := "no-field-or-method" } ∧
+    memberStep (.list e a) name = .err { kind := "no-field-or-method" } ∧
+    memberStep (.map .string .any a) name = .err { kind := "no-field-or-method" } :=
+  ⟨memberStep_missing ty fields name h, rfl, rfl, rfl, rfl, rfl, rfl⟩
+
+/-- non-vacuity: `u.Boss.Name` on `u = &User{Name: "ann", Boss: &User{Name: "bo", Boss: nil}}` is "bo", and
+    `u.Boss.Boss.Name` is nil (a member of a nil pointer field) -/
+example :
+    let name : Bytes := [78, 97, 109, 101]   -- "Name"
+    let boss : Bytes := [66, 111, 115, 115]  -- "Boss"
+    let bo : Val := .struct "User" [(name, .str [98, 111]), (boss, .ptr "*User" none)]
+    let ann : Val := .ptr "*User" (some (.struct "User" [(name, .str [97, 110, 110]), (boss, .ptr "*User" (some bo))]))
+    navigate (.ok ann) [boss, name] = .ok (.str [98, 111]) ∧
+    navigate (.ok ann) [boss, boss, name] = .ok .nil ∧
+    navigate (.ok ann) [[78, 111, 112, 101]] = .err { kind := "no-field-or-method" } := by
+  refine ⟨?_, ?_, ?_⟩ <;> rfl
 
 end Plush
